@@ -12,7 +12,18 @@ LEVEL = "proof"
 def gen_case(rng):
     kind = "G4" if rng.random() < 0.65 else "G3"
     mode = rng.random()
-    if mode < 0.55:
+    lattice = False
+    if mode < 0.08:
+        # integer lattice: voxel sizes whose reciprocal is not a binary fraction (49, 103, 161, 7 ...), box and points on exact
+        # multiples, unit scale (the epsilon shift of the origin is absorbed).  Here floor((k s - lo)/s) = k - k0 EXACTLY, so the
+        # closed statement "at most one voxel size apart" can be demanded bit for bit
+        lattice = True
+        s = float(rng.choice([49, 103, 161, 7, 11, 3 * 49])) * 2.0 ** rng.choice([0, 0, -6, 3])
+        k = [rng.choice([0, 1, 2, 5]) for _ in range(3)]
+        n = [rng.randint(2, 9) for _ in range(3)]
+        lo = [s * ki for ki in k]
+        hi = [lo[i] + s * n[i] for i in range(3)]
+    elif mode < 0.55:
         # exact multiples: s = m*2^e, lo = s*k, hi = lo + s*n  (all exactly representable)
         e = rng.randint(-20, 8); m = rng.choice([1, 1, 3, 5])
         s = m * 2.0 ** e
@@ -38,7 +49,7 @@ def gen_case(rng):
         p = [rng.choice([lo[i], hi[i], mid[i]]) for i in range(3)]
         pts.append(clampp(p))
     # points exactly on voxel boundaries
-    for _ in range(rng.randint(0, 5)):
+    for _ in range(rng.randint(0, 5) if not lattice else 12):
         p = [lo[i] + s * rng.randint(0, max(0, int((hi[i] - lo[i]) / s))) for i in range(3)]
         pts.append(clampp(p))
     # random interior points, some clustered
@@ -49,6 +60,12 @@ def gen_case(rng):
             q = [p[i] + rng.uniform(-1, 1) * s for i in range(3)]
             pts.append(clampp(q))
     qs = []
+    if lattice:
+        # queries exactly one voxel size away from a stored lattice point, along one axis
+        for b in pts[-12:]:
+            ax = rng.randrange(3); q = list(b); q[ax] = b[ax] + s * rng.choice([-1, 1])
+            if lo[ax] <= q[ax] <= hi[ax]:
+                qs.append(tuple(q))
     for _ in range(rng.randint(2, 8)):
         if rng.random() < 0.5:
             b = pts[rng.randrange(len(pts))]
@@ -61,7 +78,7 @@ def gen_case(rng):
         # the grid object is re-used: built for another box first (different cross-section), then re-dimensioned
         plo = [lo[i] + s * rng.uniform(-3, 3) for i in range(3)]
         prev = (plo, [plo[i] + s * rng.uniform(0.5, 9) for i in range(3)])
-    return dict(kind=kind, s=s, lo=lo, hi=hi, pts=pts, qs=qs, prev=prev)
+    return dict(kind=kind, s=s, lo=lo, hi=hi, pts=pts, qs=qs, prev=prev, lattice=lattice)
 
 
 def fmt_impl(c):
@@ -159,7 +176,8 @@ def oracle(c, o):
         for i in present:
             p = c["pts"][i]
             d = math.sqrt(sum((p[k] - q[k]) ** 2 for k in range(3)))
-            if d <= s * (1 - 1e-9) and i not in objs:
+            exact_lattice = c.get("lattice") and all(float(p[k] / s).is_integer() and float(q[k] / s).is_integer() for k in range(3))
+            if (d <= s * (1 - 1e-9) or (exact_lattice and d <= s)) and i not in objs:
                 return "neighbourhood_complete (object %d at distance %.3g voxel sizes missed by query %d)" % (i, d / s, qi)
         if len(set(objs)) != len(objs):
             return "neighbourhood returns an object twice"
